@@ -10,7 +10,7 @@ import json, os, re, subprocess, sys, time, hashlib
 ROOT = os.path.dirname(os.path.abspath(__file__))
 REPO = os.environ.get('VX_REPO', '/repo')
 VXSPAN = os.path.join(ROOT, 'tools/vxspan/target/release/vxspan')
-BUILD = os.path.join(ROOT, '.cache', 'units')
+BUILD = os.environ.get('VX_BUILD') or os.path.join(ROOT, '.cache', 'units')   # VX_BUILD: a private build dir, so that two runs do not share assembled units
 
 LOG_MACROS = ('trace', 'debug', 'info', 'warn', 'error', 'log::trace', 'log::debug', 'log::info', 'log::warn', 'log::error')
 KEEP_DERIVES = ('Clone', 'Copy', 'PartialEq', 'Eq', 'Hash')
@@ -39,6 +39,7 @@ REWRITES = {
     'R1b': '`unreachable!(\"..\", args)` / `panic!(\"..\", args)` lose their message and become `unreachable!()` (the arm stays an obligation: it must be proved unreachable)',
     'R23': 'a field of type RwLock<T> is given the type T and `self.F.write().unwrap()` / `self.F.read().unwrap()` become `&mut self.F` / `&self.F` (receiver &self -> &mut self, R7): the lock guard held to the end of the block is the exclusive / shared borrow of the protected value; single-task semantics only, no claim about interleavings or lock poisoning',
     'R24': 'a provided (default-bodied) trait method is lifted out of its trait into a free generic function (`fn f(&mut self, ..)` of `trait T` -> `fn f<A: T>(vx_self: &mut A, ..)`, `Self` -> `A`, `self` -> `vx_self`) so that its contract can use spec functions that are generic over the trait (Verus rejects those inside the trait: cyclic definition); in the extracted trait declaration the method loses its body and is a required method; a verification of THE method as long as no implementor overrides it',
+    'R25': '`while let PAT = EXPR { BODY }` becomes `loop { match EXPR { PAT => { BODY } _ => { break; } } }` (definitional desugaring; Verus has no while-let)',
     'R22': 'by-value receiver `mut self` becomes `self` with `let mut vx_self = self;` first in the body and every `self` of the body renamed (Verus does not support `mut self`; the binding mode of a by-value parameter is not part of the interface)',
     'R12': 'derive(Default) expanded to the field-wise impl the derive generates (inside verus!, verified, not assumed)',
 }
@@ -1221,6 +1222,21 @@ pub assume_specification [<{q} as PartialEq>::eq] (a: &{q}, b: &{q}) -> (r: bool
             edits.append((ts + 1, ts + 1, [Seg(''.join(' if ' + pp + ' {' for pp in parts[1:]))]))
             edits.append((tt - 1, tt - 1, [Seg('} ' * len(parts[1:]))]))
             self._rw('R5')
+        # R25: `while let PAT = EXPR { BODY }` -> `loop { match EXPR { PAT => { BODY } _ => { break; } } }` (Verus has no while-let)
+        for L in e['loops']:
+            if L['kind'] != 'while' or not (lo <= L['span'][0] and L['span'][1] <= hi):
+                continue
+            cs, ct = L['cond']
+            cond = src[cs:ct].decode()
+            m25 = re.match(r'let\s+(.*?)\s*=\s*(?![=>])(.*)$', cond, re.S)
+            if not m25:
+                continue
+            pat25, expr25 = m25.group(1), m25.group(2)
+            bs25, bt25 = L['body']
+            edits.append((L['span'][0], ct, [Seg('loop ')]))
+            edits.append((bs25 + 1, bs25 + 1, [Seg(f' match {expr25} {{ {pat25} => {{ ')]))
+            edits.append((bt25 - 1, bt25 - 1, [Seg(' } _ => { break; } } ')]))
+            self._rw('R25')
         if inline:
             edits += self._inline_edits(src, lo, hi, e.get('impl'))
         return edits
@@ -1450,11 +1466,16 @@ pub assume_specification [<{q} as PartialEq>::eq] (a: &{q}, b: &{q}) -> (r: bool
             if lspec.get('decreases'):
                 lsegs.append(Seg(f'            decreases {lspec["decreases"]},\n'))
             edits.append((L['body'][0], L['body'][0], lsegs))
+            if lspec.get('iter') and L['kind'] == 'for':
+                edits.append((L['expr'][0], L['expr'][0], [Seg(lspec['iter'] + ': ')]))
         whole_c = src[cbs:cbt].decode()
         for anchor, text in ghost:
             if anchor[0] == 'loop_start':
                 L = inner_loops[anchor[1]]
                 edits.append((L['body'][0] + 1, L['body'][0] + 1, self._ghost_segs('\n' + text + '\n', fid, clause_list)))
+            elif anchor[0] == 'after_loop':
+                L = inner_loops[anchor[1]]
+                edits.append((L['span'][1], L['span'][1], self._ghost_segs('\n' + text + '\n', fid, clause_list)))
             elif anchor[0] in ('before', 'after'):
                 lit, occ = anchor[1], anchor[2]
                 pos = -1
